@@ -229,6 +229,16 @@ def handle (c : Ctx) (op : String) (args res : List String) (line : String) : St
       let spec := if bruteCost c P ≤ bruteLimit then bruteIrreducible F c.elems P else isIrreducible F c.q P
       verdict (r == b2s spec) (r == b2s model) "" (b2s model) line
     | _, _ => "BAD args | " ++ line
+  | "czf3", [sP0, sP] =>
+    -- second of two calls; the factor list was cleared in between, the exponent list was not: judged as the factorisation of P
+    match parsePoly sP0, parsePoly sP with
+    | some P0, some P =>
+      if norm F P0 = [] || norm F P = [] then "PRE" else
+      let L? : Option (List (List Nat × Nat)) := if res == ["none"] then some [] else res.mapM parseFactor
+      match L? with
+      | none => verdict false true (cls c P) "-" line
+      | some L => verdict (checkFactorList F (irrDecide c) P L) true (cls c P) "-" line
+    | _, _ => "BAD args | " ++ line
   | "czf", [sP] =>
     match parsePoly sP with
     | some P =>
